@@ -52,6 +52,13 @@ def main():
         if req.get("predirty") is not None:
             n = sum(a.nbytes for a in args if isinstance(a, np.ndarray)) or 64
             dirty_heap(n, req["predirty"])
+            # numpy recycles small buffers by size: also dirty blocks of the sizes a result of the first arguments' shape would
+            # have in any item size, so that an output the kernel forgets to write shows the pattern
+            for a in args:
+                if isinstance(a, np.ndarray) and a.size:
+                    for item in (1, 2, 4, 8):
+                        blocks = [np.full(a.size * item, req["predirty"], np.uint8) for _ in range(4)]
+                        del blocks
         out = {"id": req["id"], "res": None, "exc": None}
         t0 = time.time()
         try:
